@@ -1,1 +1,52 @@
-From SF Require Import Base.Prelude Unsized.Types Properties.C01.
+(* Pinned statements of C01: re-checked on every run. *)
+From SF Require Import Base.Prelude Gen.Generated Unsized.Types Unsized.Parse Unsized.Machine Unsized.Ops Unsized.Proofs.EncodeParse Unsized.Proofs.Mem Unsized.Proofs.Notify Unsized.Proofs.Flat Properties.C01.
+
+Check (C01_flat_step_refines :
+  forall ts vs s top o vs',
+    Rep ts vs s top -> m_refuse s <> 1 -> ostep (m_cap s) ts vs o = Some vs' ->
+    exists s', mstep ts s top o = Ok (s', PStruct (lay ts vs' 0), []) /\
+               Rep ts vs' s' (PStruct (lay ts vs' 0)) /\ m_cap s' = m_cap s /\ m_refuse s' = m_refuse s).
+Check (C01_flat_run_refines :
+  forall ts h vs s top vs',
+    Rep ts vs s top -> m_refuse s <> 1 -> orun (m_cap s) ts vs h = Some vs' ->
+    exists s', mrun ts s top h = Ok (s', PStruct (lay ts vs' 0)) /\ Rep ts vs' s' (PStruct (lay ts vs' 0))).
+Check (C01_flat_insert_index_error :
+  forall tsA tsB vsA vsB c lw items, length tsA = length vsA -> forall s top idx new,
+    Rep (tsA ++ TList c lw :: tsB) (vsA ++ VList items :: vsB) s top -> zlen items < idx ->
+    list_insert (TStruct (tsA ++ TList c lw :: tsB)) s top [PF (length tsA)] idx new = Err E_INDEX).
+Check (C01_flat_insert_prefix_error :
+  forall tsA tsB vsA vsB c lw items, length tsA = length vsA -> forall s top idx new,
+    Rep (tsA ++ TList c lw :: tsB) (vsA ++ VList items :: vsB) s top -> idx <= zlen items ->
+    256 ^ Z.of_nat lw <= zlen items + zlen new ->
+    list_insert (TStruct (tsA ++ TList c lw :: tsB)) s top [PF (length tsA)] idx new = Err E_TOPRIM).
+Check (C01_flat_remove_range_error :
+  forall tsA tsB vsA vsB c lw items, length tsA = length vsA -> forall s top st en,
+    Rep (tsA ++ TList c lw :: tsB) (vsA ++ VList items :: vsB) s top -> en < st ->
+    list_remove (TStruct (tsA ++ TList c lw :: tsB)) s top [PF (length tsA)] st en = Err E_RANGE).
+Check (C01_flat_remove_index_error :
+  forall tsA tsB vsA vsB c lw items, length tsA = length vsA -> forall s top st en,
+    Rep (tsA ++ TList c lw :: tsB) (vsA ++ VList items :: vsB) s top -> st <= en -> zlen items < en ->
+    list_remove (TStruct (tsA ++ TList c lw :: tsB)) s top [PF (length tsA)] st en = Err E_INDEX).
+Check (C01_flat_observable :
+  forall ovf ts vs s top, Rep ts vs s top ->
+    owned_ptr ovf (TStruct ts) (m_mem s) top = Ok (VStruct vs) /\
+    ztake (m_len s) (m_mem s) = encode (TStruct ts) (VStruct vs) /\
+    m_len s = byte_size (TStruct ts) (VStruct vs) /\
+    parse ovf (TStruct ts) (ztake (m_len s) (m_mem s)) = Ok (VStruct vs, m_len s)).
+Check (C01_flat_reborrow :
+  forall ovf ts vs s,
+    forallb leaf ts = true -> ty_ok true (TStruct ts) = true -> wf (TStruct ts) (VStruct vs) = true ->
+    (exists junk, m_mem s = encs ts vs ++ junk) -> m_len s = zlen (encs ts vs) ->
+    exists top, get_ptr ovf (TStruct ts) (m_mem s) 0 (m_len s) = Ok (top, m_len s) /\ Rep ts vs s top).
+Check (C01_notify_shift :
+  forall t p src c m, after src t p = true -> notify t p src c m = Ok (shift c p, m)).
+
+Print Assumptions C01_flat_step_refines.
+Print Assumptions C01_flat_run_refines.
+Print Assumptions C01_flat_insert_index_error.
+Print Assumptions C01_flat_insert_prefix_error.
+Print Assumptions C01_flat_remove_range_error.
+Print Assumptions C01_flat_remove_index_error.
+Print Assumptions C01_flat_observable.
+Print Assumptions C01_flat_reborrow.
+Print Assumptions C01_notify_shift.
